@@ -1009,6 +1009,11 @@ class Interp:
     }
 
     def named_const(self, st, fr, c):
+        h = self.hooks.get('named_const')
+        if h:
+            r = h(self, st, c)
+            if r is not None:
+                return r
         if c in self.STD_CONSTS:
             v, ty = self.STD_CONSTS[c]
             return self.mk_int(v, ty)
